@@ -1209,6 +1209,7 @@ func c10IDs(c *Ctx) {
 	P := c.P
 	n := 0
 	counterFields := map[*types.Var]bool{}
+	lockedCounters := map[*types.Var]bool{}
 	for _, t := range []struct{ rel, typ string }{{"components/providers/base", "ProviderBase"}, {"components/providers/grpc", "Provider"}} {
 		pk := P.Pkg(t.rel)
 		if pk == nil {
@@ -1236,7 +1237,22 @@ func c10IDs(c *Ctx) {
 		if fld == nil && len(atomics) == 1 {
 			fld = atomics[0]
 		}
+		if fld != nil {
+			if p, _ := NamedOf(fld.Type()); p != "sync/atomic" && p != "go.uber.org/atomic" {
+				if lf, _ := c10LockedCounter(P, st, t.typ); lf != nil {
+					fld = nil // a plain integer under a mutex: decided below
+				}
+			}
+		}
 		if fld == nil {
+			// ... or a plain integer advanced only by `f++` with a mutex of the struct held
+			if lf, nSt := c10LockedCounter(P, st, t.typ); lf != nil {
+				counterFields[lf] = true
+				lockedCounters[lf] = true
+				n += nSt + 1
+				c.OK("O10.6", t.rel+"."+t.typ+"."+lf.Name()+":counter-advanced-under-its-mutex", lf.Pos(), fmt.Sprintf("the id counter is a plain integer; each of its %d writes is `%s++` with a sync.Mutex of the struct held", nSt, lf.Name()))
+				continue
+			}
 			c.Anchor("O10.6", t.rel+"."+t.typ+": the atomic id counter field")
 			continue
 		}
@@ -1349,8 +1365,80 @@ func c10IDs(c *Ctx) {
 						ok = true
 					}
 				}
+				// the locked counter: the value returned is the counter as read after this call's own increment, the lock still held
+				for _, rt := range Roots(r.Results[0], false) {
+					fv, _ := FieldOf(rt)
+					ld, isLd := rt.(ssa.Instruction)
+					if fv == nil || !lockedCounters[fv] || !isLd {
+						continue
+					}
+					sts, before := ReachingFieldStores(ld, "", fv.Name())
+					ls := NewLocksets(nid, func(v ssa.Value) bool { p, n := NamedOf(v.Type()); return p == "sync" && (n == "Mutex" || n == "RWMutex") })
+					if !before && len(sts) > 0 && ls.Before[ld].W {
+						ok = true
+					}
+				}
 			}
 		})
 		c.Check(ok, "O10.6", fk(nid)+":returns-the-incremented-value", nid.Pos(), "NextID returns idCounter.Add(1)")
 	}
+}
+
+// c10LockedCounter: an integer field of the struct whose every write in production code is `f = f + 1` made while a
+// sync.Mutex is write-locked in the same function; returns the field and the number of such writes.
+func c10LockedCounter(P *Prog, st *types.Struct, typ string) (*types.Var, int) {
+	hasMu := false
+	for i := 0; i < st.NumFields(); i++ {
+		if p, n := NamedOf(st.Field(i).Type()); p == "sync" && (n == "Mutex" || n == "RWMutex") {
+			hasMu = true
+		}
+	}
+	if !hasMu {
+		return nil, 0
+	}
+	isMu := func(v ssa.Value) bool { p, n := NamedOf(v.Type()); return p == "sync" && (n == "Mutex" || n == "RWMutex") }
+	for i := 0; i < st.NumFields(); i++ {
+		f := st.Field(i)
+		b, isB := f.Type().Underlying().(*types.Basic)
+		if !isB || b.Info()&types.IsInteger == 0 {
+			continue
+		}
+		nSt, all := 0, true
+		for _, fn := range P.ProdFuncs() {
+			var ls *Locksets
+			EachInstr(fn, func(in ssa.Instruction) {
+				st2, ok := in.(*ssa.Store)
+				if !ok {
+					return
+				}
+				fa, ok := st2.Addr.(*ssa.FieldAddr)
+				if !ok {
+					return
+				}
+				if fv, _ := FieldOf(fa); fv != f {
+					return
+				}
+				nSt++
+				bo, isBo := st2.Val.(*ssa.BinOp)
+				inc := false
+				if isBo && bo.Op == token.ADD {
+					if k, isK := ConstInt(bo.Y); isK && k == 1 {
+						if fv2, _ := FieldOf(bo.X); fv2 == f {
+							inc = true
+						}
+					}
+				}
+				if ls == nil {
+					ls = NewLocksets(fn, isMu)
+				}
+				if !inc || !ls.Before[in].W {
+					all = false
+				}
+			})
+		}
+		if nSt > 0 && all {
+			return f, nSt
+		}
+	}
+	return nil, 0
 }
